@@ -177,7 +177,7 @@ class ForcePlatformsDataBlock(Block):
             ForcePlatformData._build(stream, format, n_frames) for _ in range(n_plats)
         ]
         block = ForcePlatformsDataBlock(start_time, frequency, n_frames)
-        block._plat_map = plat_map
+        block._plat_map = [int(channel) for channel in plat_map]
         block._platforms = platforms
 
         return block
@@ -211,7 +211,7 @@ class ForcePlatformsDataBlock(Block):
             raise ValueError("platform must be a ForcePlatformData instance")
 
         if channel is None:
-            channel = len(self._platforms)
+            channel = max(self._plat_map) + 1 if len(self._plat_map) else 0
         if channel in self._plat_map:
             raise ValueError(f"Channel {channel} already in use")
         self._plat_map.append(channel)
@@ -232,11 +232,15 @@ class ForcePlatformsDataBlock(Block):
         Sets the platforms in the block.
         """
         oldPlatforms = self._platforms
+        oldPlatMap = self._plat_map
+        self._platforms = []
+        self._plat_map = []
         try:
             for platform in platforms:
                 self.add_platform(platform)
         except Exception as e:
             self._platforms = oldPlatforms
+            self._plat_map = oldPlatMap
             raise e
 
     @property
